@@ -77,8 +77,7 @@ def main():
             rows.append((m["id"], m["props"], tests, caught, m["what"]))
         finally:
             shutil.rmtree(d, ignore_errors=True)
-    # restore evidence/replays that the mutant runs must not leave behind
-    subprocess.run(["git", "-C", ROOT, "checkout", "--", "evidence"], check=False, capture_output=True)
+    # (mutant runs are started with RTMON_NO_EVIDENCE=1: they leave no evidence behind)
     if a.write:
         with open(os.path.join(HERE, "RESULTS.md"), "a") as f:
             for mid, ps, tests, caught, what in rows:
